@@ -167,11 +167,12 @@ func runEvents(c *EventsCase, out *outcome) {
 }
 
 func genEventsCase(t *rapid.T) Case {
-	c := &EventsCase{CurrentSlot: rapid.SampledFrom([]uint64{0, 1, 63, 64, 65, 1000, 1 << 40}).Draw(t, "currentSlot")}
+	c := &EventsCase{CurrentSlot: rapid.SampledFrom([]uint64{0, 1, 63, 64, 65, 1000, 1<<31 - 1, 1 << 32, 1 << 40, 1<<63 - 2, 1<<63 - 1}).Draw(t, "currentSlot")} // vouch's own clock
 	c.Initial = genSignedBlockSpec(t, c.CurrentSlot)
 	n := rapid.IntRange(1, 5).Draw(t, "nEvents")
 	for i := 0; i < n; i++ {
-		slot := rapid.SampledFrom([]uint64{0, 1, c.CurrentSlot, c.CurrentSlot + 1, ^uint64(0)}).Draw(t, "eventSlot")
+		slot := rapid.SampledFrom([]uint64{0, 1, c.CurrentSlot, c.CurrentSlot + 1, c.CurrentSlot - 1, c.CurrentSlot - 64, c.CurrentSlot - 65,
+			1 << 31, 1<<32 + 1, 1<<63 - 1, 1 << 63, ^uint64(0) - 1, ^uint64(0)}).Draw(t, "eventSlot")
 		if c.CurrentSlot > 70 && rapid.Bool().Draw(t, "oldSlot") {
 			slot = c.CurrentSlot - 70
 		}
